@@ -1,0 +1,15 @@
+//go:build verif
+// +build verif
+
+package fuse
+
+import (
+	"github.com/jacobsa/fuse/fuseutil"
+)
+
+// VerifFS exposes the operation object of the read-only file system (the value the FUSE server
+// dispatches kernel requests to), so that a harness can drive it without a kernel mount.
+func (dfs *ReadOnlyFS) VerifFS() fuseutil.FileSystem { return dfs.fsInternal }
+
+// VerifStreamed tells which mount mode the file system was built in.
+func (dfs *ReadOnlyFS) VerifStreamed() bool { return dfs.fsInternal.streamed }
